@@ -6,6 +6,7 @@ import os
 from tfv import core
 from tfv.core import Violation, run_async
 from tfv.data import Tree
+from tfv.gen import add_schema_directive
 from tfv.impl import RequestState
 from tfv.model import canon, print_document
 from tfv.mutate import mutants
@@ -27,7 +28,8 @@ RULE = (
     "runs repeated afterwards are unchanged. Absolute anchors under the differential comparison: a valid fault-free request run alone must "
     "give the reference executor's data; introspection requests (schema-owned lists, both includeDeprecated views, fields hidden by "
     "@nonIntrospectable, deprecated, or visible only to even-numbered callers through an on_introspection hook) must list exactly the "
-    "fields visible to their caller. Distinct = SHA-1 of (requests, schedule); non-trivial = gates of >= 2 requests were "
+    "fields visible to their caller; in 30% of the cases a directive on the schema wraps every execution and refuses every third "
+    "caller by raising. Distinct = SHA-1 of (requests, schedule); non-trivial = gates of >= 2 requests were "
     "released alternately (A, B, A)."
 )
 ASSUMPTIONS = c08.ASSUMPTIONS
@@ -84,8 +86,10 @@ def introspection_request(c, schema, like):
 def check_introspection(schema, req, rid, resp):
     """absolute oracle for the `fields` lists of introspection requests: exactly the declared fields, in order, minus
     @nonIntrospectable ones, minus @deprecated ones unless includeDeprecated, minus the ones this caller may not see"""
-    if req.get("kind") != "introspection" or schema.get("schema_dirs"):
+    if req.get("kind") != "introspection" or any(d["name"] == "nonIntrospectable" for d in schema.get("schema_dirs") or ()):
         return None
+    if any(d["name"] == "sd" for d in schema.get("schema_dirs") or ()) and rid % 3 == 2:
+        return None  # this caller is refused by the schema-level hook (plan schema_hook_denies)
     if not isinstance(resp, dict) or "errors" in resp or not isinstance(resp.get("data"), dict):
         if rid % 2 == 1:
             return None  # a caller that may not see a *type* can meet a null at a non-null position (e.g. __Schema.queryType)
@@ -251,12 +255,14 @@ def summarize(rs):
 
 def solo(h, schema, reqs, texts):
     out = []
+    spec_plan = h.plan
     for i, req in enumerate(reqs):
         rs = new_state(schema, req, i)
         h.gate = None
         resp = run_async(execute(h, req, rs, texts[i]))
         out.append((canon_response(resp), summarize(rs)))
-        if "expected" in req and not req.get("faults") and not req.get("invalid"):
+        denied = bool(reqs and spec_plan.get("schema_hook_denies")) and i % 3 == 2
+        if "expected" in req and not req.get("faults") and not req.get("invalid") and not denied:
             # absolute anchor of the differential comparison: a valid, fault-free request run alone gives the reference's data
             if not isinstance(resp, dict) or "errors" in resp or c01.ordered(resp.get("data")) != c01.ordered(req["expected"]):
                 raise Violation({"schema": schema, "requests": reqs}, "request %d (%s) run alone is not answered with the reference's data (state left by an earlier request?)\n engine:    %s\n reference: %s\nquery:\n%s" % (
@@ -265,7 +271,7 @@ def solo(h, schema, reqs, texts):
         if msg:
             raise Violation({"schema": schema, "requests": reqs}, "request %d run alone: %s\nquery:\n%s" % (i, msg, texts[i]), tag="introspection")
         keys = response_keys(req["doc"])
-        for e in (resp.get("errors") or ()) if (isinstance(resp, dict) and not req.get("invalid")) else ():
+        for e in (resp.get("errors") or ()) if (isinstance(resp, dict) and not req.get("invalid") and not denied) else ():
             pth = e.get("path") if isinstance(e, dict) else None
             if isinstance(pth, list) and pth and pth[0] not in keys:
                 raise Violation({"schema": schema, "requests": reqs}, "request %d run alone reports an error at path %r, which is not a response key of its own document %r (state left by an earlier request?)" % (i, pth, sorted(keys)), tag="foreign_path")
@@ -300,7 +306,7 @@ def check(spec, h, budget, scripts, stats=None):
         sspec = dict(spec, schedule=list(script))
         for i, resp in enumerate(resps):
             got = canon_response(resp)
-            if not reqs[i].get("invalid"):
+            if not reqs[i].get("invalid") and not (h.plan.get("schema_hook_denies") and i % 3 == 2):  # (what a refusing schema-level hook raised is reported under the root type's name)
                 keys = response_keys(reqs[i]["doc"])
                 for e in (resp.get("errors") or ()) if isinstance(resp, dict) else ():
                     pth = e.get("path") if isinstance(e, dict) else None
@@ -351,6 +357,10 @@ def case(c, stats):
     plan = c08.plan_for(base_plan, cfg)
     plan["gate_hooks"] = False
     plan["introspection_by_rid"] = True
+    if c.maybe(30):
+        # a directive on the schema wraps every execution and refuses every third caller by raising
+        add_schema_directive(schema)
+        plan["schema_hook_denies"] = True
     h = run_async(c01.make_harness(schema, plan, c08.engine_kwargs(cfg)))
     reqs = gen_requests(c, schema, plan)
     spec = {"schema": schema, "plan": plan, "config": cfg, "requests": reqs}
